@@ -192,6 +192,15 @@ func cmdCheck(argv []string) int {
 	dischargeAll(units, cfg, runtime.NumCPU())
 	solveS := time.Since(tSolve).Seconds()
 
+	if *verbose {
+		for _, u := range units {
+			for _, o := range u.obls {
+				if o.TimeS > 2 {
+					fmt.Printf("  slow: %s %.1fs %s %s (%s)\n", o.Name, o.TimeS, o.Result, o.Backend, o.Where)
+				}
+			}
+		}
+	}
 	// known findings
 	var known []knownFinding
 	if data, err := os.ReadFile(filepath.Join(verifDir(), "known_findings.json")); err == nil {
@@ -302,6 +311,16 @@ func cmdCheck(argv []string) int {
 		}
 		o := a.worst
 		if a.kind == "cover" {
+			if *dump != "" {
+				os.MkdirAll(*dump, 0o755)
+				for _, u := range units {
+					for _, oo := range u.obls {
+						if oo == o {
+							os.WriteFile(filepath.Join(*dump, smtName(strings.ReplaceAll(name, "#", "__"))+".smt2"), []byte(u.smtText(o, false)), 0o644)
+						}
+					}
+				}
+			}
 			violations = append(violations, fmt.Sprintf("BROKEN-CHECK property=%s vacuity: %s is unreachable (contradictory contract or assumed spec)", prop, name))
 			exit = 3
 			continue
